@@ -1,6 +1,13 @@
 #include <occa/internal/utils/gc.hpp>
 #include <iostream>
 
+#ifdef LIBOCCA_OCCA_VERIF
+#  include <atomic>
+#  include <mutex>
+#  include <set>
+#  include <occa/internal/utils/verif.hpp>
+#endif
+
 namespace occa {
   namespace gc {
     withRefs::withRefs() :
@@ -44,3 +51,99 @@ namespace occa {
     }
   }
 }
+
+#ifdef LIBOCCA_OCCA_VERIF
+//---[ Verification hooks ]-------------
+namespace occa {
+  namespace verif {
+    namespace {
+      // Function-local statics: usable from static initializers of other
+      // translation units (e.g. the global occa::null memory)
+      struct state_t {
+        std::atomic<long> liveCount[kindCount];
+        std::atomic<long> createdCount[kindCount];
+        std::atomic<long> errorCount;
+        std::atomic<yieldCallback_t> yieldCallback;
+        std::mutex mutex;
+        std::set<const void*> registry[kindCount];
+
+        state_t() :
+          errorCount(0),
+          yieldCallback((yieldCallback_t) NULL) {
+          for (int i = 0; i < kindCount; ++i) {
+            liveCount[i] = 0;
+            createdCount[i] = 0;
+          }
+        }
+      };
+
+      state_t& state() {
+        // Leaked on purpose: objects may be destroyed during static destruction
+        static state_t *s = new state_t();
+        return *s;
+      }
+
+      bool validKind(int kind) {
+        return (0 <= kind) && (kind < kindCount);
+      }
+    }
+
+    long live(int kind) {
+      return validKind(kind) ? state().liveCount[kind].load() : 0;
+    }
+
+    long created(int kind) {
+      return validKind(kind) ? state().createdCount[kind].load() : 0;
+    }
+
+    bool isLive(int kind, const void *ptr) {
+      if (!validKind(kind)) {
+        return false;
+      }
+      state_t &s = state();
+      std::lock_guard<std::mutex> guard(s.mutex);
+      return (s.registry[kind].count(ptr) != 0);
+    }
+
+    long errors() {
+      return state().errorCount.load();
+    }
+
+    void registerObject(int kind, const void *ptr) {
+      if (!validKind(kind)) {
+        return;
+      }
+      state_t &s = state();
+      ++s.liveCount[kind];
+      ++s.createdCount[kind];
+      std::lock_guard<std::mutex> guard(s.mutex);
+      if (!s.registry[kind].insert(ptr).second) {
+        ++s.errorCount;
+      }
+    }
+
+    void unregisterObject(int kind, const void *ptr) {
+      if (!validKind(kind)) {
+        return;
+      }
+      state_t &s = state();
+      --s.liveCount[kind];
+      std::lock_guard<std::mutex> guard(s.mutex);
+      if (s.registry[kind].erase(ptr) != 1) {
+        ++s.errorCount;
+      }
+    }
+
+    yieldCallback_t setYieldCallback(yieldCallback_t callback) {
+      return state().yieldCallback.exchange(callback);
+    }
+
+    void yieldPoint(int id) {
+      yieldCallback_t callback = state().yieldCallback.load();
+      if (callback) {
+        callback(id);
+      }
+    }
+  }
+}
+#endif
